@@ -79,7 +79,7 @@ Definition show_entry (e : entry) : string :=
 Definition show_log (l : list entry) : string := sconcat (map (fun e => show_entry e +++ "; ") l).
 
 Record case := {
-  c_bodies : list (Z * body); c_clients : list (list op); c_choices : list Z;
+  c_variant : bool; c_bodies : list (Z * body); c_clients : list (list op); c_choices : list Z;
   c_log : list entry; c_finished : bool; c_has_jobs : bool }.
 
 Fixpoint first_diff (n : Z) (a b : list entry) : Z :=
@@ -90,9 +90,9 @@ Fixpoint first_diff (n : Z) (a b : list entry) : Z :=
 
 (* "=" when the model reproduces the real run, else where and what the model did *)
 Definition model_case (c : case) : string :=
-  let m := run_model (bodies_of (c_bodies c)) (c_clients c) (c_choices c) in
+  let m := run_model (bodies_of (c_bodies c)) (c_variant c) (c_clients c) (c_choices c) in
   let ml := log m in
-  let fin := quiescentb pc (code (bodies_of (c_bodies c))) m in
+  let fin := quiescentb pc (code (bodies_of (c_bodies c)) (c_variant c)) m in
   if log_eqb ml (c_log c) && Bool.eqb fin (c_finished c) && Bool.eqb (has_jobs_of m) (c_has_jobs c)
   then "="
   else "DIFF at " +++ show_Z (first_diff 0 ml (c_log c)) +++ " finished=" +++ show_bool fin
@@ -100,8 +100,8 @@ Definition model_case (c : case) : string :=
 Definition model_cases (l : list case) : string := sconcat (map (fun c => model_case c +++ "|") l).
 
 (* the model's own run, printed (replay, diagnostics) *)
-Definition model_show (bs : list (Z * body)) (cl : list (list op)) (ch : list Z) : string :=
-  show_log (log (run_model (bodies_of bs) cl ch)).
+Definition model_show (once : bool) (bs : list (Z * body)) (cl : list (list op)) (ch : list Z) : string :=
+  show_log (log (run_model (bodies_of bs) once cl ch)).
 
 (* which branches of the access programs a run exercised: (point before, point after) of every
    step, recovered by replaying the thread ids of the model's own log *)
@@ -127,16 +127,16 @@ Definition show_pc (p : pc) : string :=
   end.
 Definition pc_at (c : config pc) (t : nat) : string :=
   match nth_error (thr c) t with Some p => show_pc p | None => "?" end.
-Fixpoint edges (bd : Z -> body) (c : config pc) (tids : list nat) : string :=
+Fixpoint edges (bd : Z -> body) (once : bool) (c : config pc) (tids : list nat) : string :=
   match tids with
   | [] => ""
   | t :: r =>
-      match step pc (code bd) c t with
-      | Some c' => pc_at c t +++ ">" +++ pc_at c' t +++ ";" +++ edges bd c' r
+      match step pc (code bd once) c t with
+      | Some c' => pc_at c t +++ ">" +++ pc_at c' t +++ ";" +++ edges bd once c' r
       | None => ""
       end
   end.
 Definition model_edges (c : case) : string :=
   let bd := bodies_of (c_bodies c) in
-  edges bd (jc_init (c_clients c)) (map (fun e => fst (fst e)) (c_log c)).
+  edges bd (c_variant c) (jc_init (c_clients c)) (map (fun e => fst (fst e)) (c_log c)).
 Definition model_edges_cases (l : list case) : string := sconcat (map (fun c => model_edges c +++ "|") l).
